@@ -1,6 +1,6 @@
 SPECIFICATION Spec
 CONSTANTS
-  Nonces = {1, 2, 3}
+  Nonces = {1, 2}
   Protocols = {"p", "q"}
   Wire = FALSE
   Budget = 3
